@@ -127,3 +127,76 @@ func c03PrefixStress(r *ev.Result, rounds int) {
 	r.Traces += n
 	r.Set("free_running_prefix_sessions", n)
 }
+
+// zeroReader yields n pieces of data, each followed by a read that returns
+// nothing and no error (net/http bodies and pipes do that now and then), then
+// EOF.
+type zeroReader struct {
+	n, i  int
+	empty bool
+}
+
+func (z *zeroReader) Read(p []byte) (int, error) {
+	if z.i >= z.n {
+		return 0, io.EOF
+	}
+	if z.empty {
+		z.empty = false
+		return 0, nil
+	}
+	z.empty = true
+	z.i++
+	return copy(p, fmt.Sprintf("piece %04d\n", z.i)), nil
+}
+
+// c03ZeroReads: a stream of 150 (400) pieces with an empty read after each:
+// everything is shown, then the stream's end is announced.
+func c03ZeroReads(r *ev.Result) {
+	for _, n := range []int{150, 400} {
+		ich := make(chan string, 4)
+		och := make(chan opshell.CLine, 4096)
+		b, err := hworld.NewBroker(ich, och)
+		if nil != err {
+			ev.Broken("%s", err)
+		}
+		ctx, cancel := context.WithCancel(context.Background())
+		var wg sync.WaitGroup
+		wg.Add(1)
+		go func() { defer wg.Done(); b.Do(ctx) }()
+		done := make(chan struct{})
+		go func() {
+			defer close(done)
+			b.ConnectOut(ctx, slog.New(slog.NewTextHandler(io.Discard, nil)), "zero", &zeroReader{n: n}, "k")
+		}()
+		select {
+		case <-done:
+		case <-time.After(hworld.Watchdog):
+			r.Violate(ev.Violation{Signature: "free-running/zero-length-reads/never-ends", Kind: "c03stress", Replay: map[string]int{"pieces": n},
+				What: fmt.Sprintf("an output stream of %d pieces with an empty read after each, then EOF: ConnectOut has not returned after %v", n, hworld.Watchdog)})
+			cancel()
+			return
+		}
+		cancel()
+		wg.Wait()
+		close(och)
+		got, notice := "", ""
+		for cl := range och {
+			if cl.Plain {
+				got += cl.Line
+			} else if strings.Contains(cl.Line, "closed") {
+				notice = cl.Line
+			}
+		}
+		want := ""
+		for i := 1; i <= n; i++ {
+			want += fmt.Sprintf("piece %04d\n", i)
+		}
+		r.Add(1)
+		r.Traces++
+		if got != want {
+			r.Violate(ev.Violation{Signature: "free-running/zero-length-reads/output-lost", Kind: "c03stress", Replay: map[string]int{"pieces": n},
+				What: fmt.Sprintf("an output stream of %d pieces with an empty read after each, then EOF: %d of %d bytes were shown before the stream was declared closed (%q)", n, len(got), len(want), notice)})
+			return
+		}
+	}
+}
